@@ -194,7 +194,7 @@ func (e *ex) doCfgEnd() core.Result {
 		return core.Result{Impl: "hang", Sig: "hang", Fail: "ServeHTTP did not return after the body was complete"}
 	}
 	r := e.configured(pc.rw.Code, pc.rw.Body.String(), pc.body, pc.shapes, pc.def)
-	r.ModelOp = "config " + strings.Join(pc.toks, " ")
+	r.ModelOp = "cfgend " + strings.Join(pc.toks, " ")
 	return r
 }
 
